@@ -143,6 +143,9 @@ pub struct Module {
     pub raw_body: Vec<String>,
     /// extra raw top-level lines (twists)
     pub raw_top: Vec<String>,
+    /// a non-main module whose check function is itself called `start` (as the project's own
+    /// test files do): only the main file's `start` is the program's entry point
+    pub own_start: bool,
 }
 
 impl Module {
@@ -279,7 +282,9 @@ fn render_module(m: &Module, is_main: bool) -> String {
         s.push('\n');
     }
     s.push('\n');
-    s.push_str(if is_main { "start :: fn do\n" } else { "zchk :: fn do\n" });
+    s.push_str(if is_main || m.own_start { "start :: fn do\n" } else { "zchk :: fn do\n" });
+    // a marker that identifies this function in the emitted Lua
+    s.push_str(&format!("    zmark := \"{}\"\n    zmark <=> \"{}\"\n", marker_of(&m.rel), marker_of(&m.rel)));
     for (k, u) in m.uses.iter().enumerate() {
         match &u.ty {
             Ty::Blob(_, _, field) => {
@@ -298,6 +303,10 @@ fn render_module(m: &Module, is_main: bool) -> String {
     }
     s.push_str("end\n");
     s
+}
+
+pub fn marker_of(rel: &str) -> String {
+    format!("ZMARK-{}", rel.replace('/', "-").replace(".sy", ""))
 }
 
 fn flat_name(modules: &[Module], m: usize, g: &str) -> String {
@@ -396,6 +405,7 @@ pub fn generate(seed: u64) -> Project {
         uses: vec![],
         raw_body: vec![],
         raw_top: vec![],
+        own_start: false,
     }];
     let mut used_paths: BTreeSet<String> = BTreeSet::new();
     used_paths.insert("main.sy".into());
@@ -411,7 +421,11 @@ pub fn generate(seed: u64) -> Project {
         };
         let rel = format!("{}{}.sy", dir, name);
         if used_paths.insert(rel.clone()) {
-            modules.push(Module { rel, globals: vec![], imports: vec![], uses: vec![], raw_body: vec![], raw_top: vec![] });
+            let own_start = r.chance(1, 3);
+            if own_start {
+                features.insert("non_main_start");
+            }
+            modules.push(Module { rel, globals: vec![], imports: vec![], uses: vec![], raw_body: vec![], raw_top: vec![], own_start });
         }
     }
 
@@ -476,6 +490,11 @@ pub fn generate(seed: u64) -> Project {
         let mut targets: Vec<usize> = (0..modules.len()).filter(|t| *t != f).collect();
         r.shuffle(&mut targets);
         targets.truncate(k);
+        if r.chance(1, 10) {
+            // a file may import itself: the shortest cycle
+            targets.push(f);
+            features.insert("self_import");
+        }
         for t in targets {
             let specs = specs_for(&modules, f, t);
             if specs.is_empty() {
@@ -815,6 +834,7 @@ impl Project {
             .set("expect_reads", crate::json::arr_str(self.expect_reads.iter()))
             .set("removed", crate::json::arr_str(self.removed.iter().map(|r| format!("{}/{}", PROJECT_DIR, r))))
             .set("flattened", self.flattened.as_ref().map(|t| J::s(t)).unwrap_or(J::Null))
+            .set("main_marker", J::s(&marker_of("main.sy")))
             .set("features", crate::json::arr_str(self.features.iter()))
     }
 }
